@@ -490,7 +490,7 @@ fn stalled_exec(case: &(usize, bool), ctx: &WorkerCtx) -> ExecResult {
 /// past the I/O timeout, the peer resumes, and another operation is issued. Whatever the first operation returned,
 /// the bytes the peer has read must be whole frames: an operation that gave up after writing part of a frame must not
 /// be followed by another frame on the same stream.
-fn stalled_conn_exec(case: &(usize, bool, bool), ctx: &WorkerCtx) -> ExecResult {
+pub fn stalled_conn_exec(case: &(usize, bool, bool), ctx: &WorkerCtx) -> ExecResult {
     let (big_mib, dist_hdr, raw) = *case;
     run_rt(async move {
         let mut res = ExecResult::default();
@@ -540,6 +540,32 @@ fn stalled_conn_exec(case: &(usize, bool, bool), ctx: &WorkerCtx) -> ExecResult 
             let n = tags.iter().filter(|x| x.trim_matches('\'') == t).count();
             if ok && n != 1 { res.violations.push(("a successful send does not correspond to exactly one frame".into(), detail.clone())); }
             if !ok && n != 0 { res.violations.push(("a failed send's frame reached the peer".into(), detail.clone())); }
+        }
+        // a connection that was given up can be connected again; the new session starts clean: the peer of the second
+        // session reads exactly the one frame of the one operation issued in it
+        if !cw.conn.is_connected() {
+            let mut conn = cw.conn;
+            let h = tokio::spawn(async move { let r = conn.connect().await; (conn, r) });
+            let mut h = h;
+            match cw.w.accept_peer().await {
+                Some(mut p2) => {
+                    let hs = cw.w.peer_handshake(&mut p2, flags_default() | extra).await;
+                    for _ in 0..20_000 { cw.w.yield_once().await; if h.is_finished() { break; } }
+                    if hs.is_ok() && h.is_finished() {
+                        let (mut conn, r) = (&mut h).await.unwrap();
+                        if r.is_ok() {
+                            let (msg, bytes) = (mk("D", 64), vec![b'D'; 64]);
+                            let r = if raw { conn.send_raw(&bytes).await } else { conn.send_message(pid_plain(1), pid_remote(12), msg).await };
+                            cw.w.settle(&mut p2, &no_probe).await;
+                            let (frames2, rest2) = p2.dist_frames();
+                            let mut cache2 = RxCache::default();
+                            let ok = r.is_ok() && rest2.is_empty() && frames2.len() == 1 && if raw { frames2[0] == bytes } else { matches!(read_frame(&frames2[0], dist_hdr, &mut cache2), Ok(DistMsg { payload: Some(RefVal::Tuple(t)), .. }) if t.len() == 2 && t[0].short().trim_matches('\'') == "D") };
+                            if !ok { res.violations.push(("after a write that was given up and a reconnect, the new session's peer does not read exactly the one frame sent in it".into(), json!({"mode": if dist_hdr { "distribution header" } else { "pass-through" }, "entry_point": if raw { "send_raw" } else { "send_message" }, "operation_returned_ok": r.is_ok(), "frames_read": frames2.len(), "first_frame_length": frames2.first().map(|f| f.len()), "stray_bytes": rest2.len()}))); }
+                        } else { res.violations.push(("a connection that gave up a write cannot be connected again".into(), json!({"error": r.err().map(|e| e.to_string())}))); }
+                    } else { res.violations.push(("a connection that gave up a write cannot be connected again".into(), json!({"peer_side": hs.err()}))); h.abort(); }
+                }
+                None => { res.violations.push(("a connection that gave up a write cannot be connected again".into(), json!({"what": "no TCP connection reached the peer"}))); h.abort(); }
+            }
         }
         res.steps = 3;
         res.outcome = format!("stalled-conn {:?} {:?}", returned, tags);
